@@ -41,7 +41,7 @@ fn action_pool(k: u64) -> Action {
 /// (destination, terminator) a given action writes to; None for actions without a table entry.
 fn target_of(a: &Action) -> Option<(Dest, Option<char>)> {
     Some(match a {
-        Action::Print => (Dest::Stdout, Some('\n')),
+        Action::Print | Action::PrintFid => (Dest::Stdout, Some('\n')),
         Action::PrintNull => (Dest::Stdout, Some('\0')),
         Action::PrintFormatted(_) => (Dest::Stdout, None),
         Action::FilePrint(f) => (Dest::File(f.clone()), Some('\n')),
@@ -183,6 +183,45 @@ pub fn run(ctx: &Ctx, rep: &mut Report) {
         let key = if one_axis_pair(&av) { Some(format!("{:?}", av)) } else { None };
         let e = place(av, &mut r);
         check(&e, &format!("random:{}", i), rep, key);
+    });
+    // payloads that contain the frame separator 0x1e itself (through an octal escape or a file name)
+    par_cases(ctx, "separator", 12, rep, |i, rep| {
+        rep.evaluations += 1;
+        let case = format!("separator:{}", i);
+        let build = |sep: u16, sepc: char| {
+            let fmt = vec![FormatElement::Literal("x".into()), FormatElement::Special(FormatSpecial::Ascii(sep)), FormatElement::Field(FormatField::Basename)];
+            let e = match i % 3 {
+                0 => list(act(Action::PrintNull), act(Action::PrintFormatted(fmt))),
+                1 => list(act(Action::FilePrintFormatted("a".into(), fmt)), act(Action::Print)),
+                _ => list(act(Action::FilePrint("a".into())), act(Action::PrintNull)),
+            };
+            let mut recs = vec![FileRecord::base(0), FileRecord::base(1)];
+            if i % 3 == 2 {
+                recs[0].relpath = format!("dir/na{}me", sepc);
+            }
+            (e, recs)
+        };
+        let (e, recs) = build(0o36, '\u{1e}');
+        match validate(&e, &crate::sut::opts_for(i), &mut |_| recs.clone()) {
+            Tv::Agree { .. } => rep.count("separator_in_payload_handled"),
+            Tv::Bad { kind, what, detail } => {
+                // attribute it to the separator only if the same program with another character in its
+                // place is fine
+                let (e2, recs2) = build(0o123, 'S');
+                let twin_ok = matches!(validate(&e2, &crate::sut::opts_for(i), &mut |_| recs2.clone()), Tv::Agree { .. });
+                if twin_ok {
+                    rep.violation(
+                        "C10:separator-in-payload",
+                        &format!("a record whose payload contains the frame separator 0x1e cannot be split back ({}): {}", kind, what.chars().take(300).collect::<String>()),
+                        &case,
+                        detail,
+                    )
+                } else {
+                    rep.violation(&format!("C10:{}:framed:separator-stream", kind), &what, &case, detail)
+                }
+            }
+            _ => {}
+        }
     });
     // many destinations interleaved with matchers so that tags pass 0x1e, 0x7f, 0xff
     let n_big = ctx.pick(6, 60);
